@@ -336,6 +336,10 @@ func (wd *World) runOp(op Op) {
 		c := r.begin(opRestart, -1, -1)
 		c.Err = errText(w.Restart())
 		r.end(c)
+		if c.Err == "" {
+			// the run has a new error channel: the application attaches its reader again
+			wd.startErrReader()
+		}
 	case opTune:
 		c := r.begin(opTune, -1, -1)
 		c.Arg = op.A
